@@ -21,9 +21,9 @@ import (
 func init() {
 	core.Register(&core.Prop{
 		ID: "C19", Level: "exploration",
-		Rule: "cases are (specification, definition) pairs: every message/header/trailer of the nine shipped files, and generated specifications with 1-12 components nested to depth 4, groups inside components inside groups, every required/optional combination, shared components and dangling references; non-trivial = definition reached through a component nested in a component or group, or a dangling-reference spec; distinct by (file, definition) or by nesting shape x requiredness vector",
+		Rule:        "cases are (specification, definition) pairs: every message/header/trailer of the nine shipped files, and generated specifications with 1-12 components nested to depth 4, groups inside components inside groups, every required/optional combination, shared components and dangling references; non-trivial = definition reached through a component nested in a component or group, or a dangling-reference spec; distinct by (file, definition) or by nesting shape x requiredness vector",
 		Assumptions: []string{"requiredness of a member inside a repeating group is relative to one group entry"},
-		FloorQuick: 200, FloorThorough: 2000,
+		FloorQuick:  200, FloorThorough: 2000,
 		Parts: []core.Part{{Name: "shipped", Run: runShipped}, {Name: "generated", Run: runGenerated, Replay: replayGen}},
 	})
 }
